@@ -27,8 +27,6 @@ Qed.
 Lemma oadd_oadd a b o : oadd a (oadd b o) = oadd (a + b) o.
 Proof. destruct o; simpl; [f_equal; lia | reflexivity]. Qed.
 
-Lemma len0_nonneg_dummy : True. Proof. exact I. Qed.
-
 (* ---------- one edge inverted at the root, child in first position ---------- *)
 Lemma rot_step_head i x l e i' x' l' e' ks' R :
   ks' <> [] -> R <> [] ->
